@@ -45,17 +45,17 @@ func planFor(prop, tier string) plan {
 		if thorough {
 			return plan{batch: 1, secs: secs, detSample: 48, watchdog: "180s"}
 		}
-		return plan{runs: q(20000), batch: 1, detSample: 32, watchdog: "25s"}
+		return plan{runs: q(20000), batch: 1, detSample: 32, watchdog: "60s"}
 	case "C16":
 		if thorough {
 			return plan{batch: 16, race: true, secs: secs, extraSecs: secs / 2, detSample: 48, watchdog: "180s"}
 		}
-		return plan{runs: q(3200), batch: 16, race: true, detSample: 6, watchdog: "25s"}
+		return plan{runs: q(3200), batch: 16, race: true, detSample: 6, watchdog: "60s"}
 	case "C19":
 		if thorough {
 			return plan{batch: 100, secs: secs, detSample: 48, watchdog: "180s"}
 		}
-		return plan{runs: q(16000), batch: 100, detSample: 6, watchdog: "25s"}
+		return plan{runs: q(16000), batch: 100, detSample: 6, watchdog: "60s"}
 	}
 	return plan{}
 }
@@ -101,6 +101,8 @@ type agg struct {
 	hits        map[uint32]struct{}
 	ioYields    uint64
 	clockReads  uint64
+	slowestMs   int64
+	slowestRun  uint64
 	simNanos    float64
 	cross       map[uint64]uint64
 	crossRun    map[uint64]uint64
@@ -129,6 +131,9 @@ func (a *agg) add(r *RunResult, batch [2]uint64, prop string, raceBuild, alt boo
 	}
 	s := &r.Stats
 	a.ops += uint64(s.Ops)
+	if s.WallMs > a.slowestMs {
+		a.slowestMs, a.slowestRun = s.WallMs, r.RunIndex
+	}
 	a.simNanos += float64(s.SimNanos)
 	a.yields += s.Yields
 	a.seqYields += s.SeqYields
@@ -905,6 +910,8 @@ func (e *driverEnv) evidence(pl plan, a *agg, wall, mainWall float64, mainRuns, 
 		"exhaustive":                       false,
 		"operations_executed":              a.ops,
 		"logical_steps_yield_events":       a.yields + a.seqYields,
+		"slowest_run_ms":                   a.slowestMs,
+		"slowest_run_index":                a.slowestRun,
 		"simulated_time":                   simTimeNote(a),
 		"simulated_clock_reads_by_library": a.clockReads,
 		"simulated_time_offered_hours":     int64(a.simNanos / 3600e9),
